@@ -143,7 +143,7 @@ class Prop(object):
         lines, exp = [], []
         all_pairs = [(a, b) for a in range(7) for b in range(7)]
         k = 0
-        for wv, wvho, dho, d, h, w, vals in cases(rng, ctx.n(250, 4000), ctx.n(2, 3)):
+        for wv, wvho, dho, d, h, w, vals in cases(rng, ctx.n(250, 1500), ctx.n(2, 3)):
             if k < len(all_pairs):
                 wv, wvho = all_pairs[k]  # every filter pair at least once
             k += 1
